@@ -275,6 +275,12 @@ def plan(tier):
               children=[S.CH(S.N(S.WORD("update", "item", "sync", "devices", "x"), {"k": S.OPT(S.TEXT)}), 0, 1)])
     strategies.append(("notification_unknown", S.shape_strategy(unk).map(lambda t: {"sub": "ack", "kind": "notification_unknown",
                                                                                    "tree": S.tree_to_json(t)}), 4 * n))
+    # a recognised type with a child the library has no entity for (the number-change notice <modify>, <hash>, nothing at all)
+    odd = S.N("notification", {"id": S.ID, "from": S.AJID, "type": S.WORD("contacts", "w:gp2", "encrypt", "account_sync"), "t": S.TS,
+                               "notify": S.OPT(S.TEXT), "participant": S.OPT(S.JID), "offline": S.OPT(S.WORD("0", "1"))},
+              children=[S.CH(S.N(S.WORD("modify", "hash", "other", "x"), {"old": S.OPT(S.JID), "new": S.OPT(S.JID), "k": S.OPT(S.TEXT)}), 0, 1)])
+    strategies.append(("notification_known_type_unknown_child",
+                       S.shape_strategy(odd).map(lambda t: {"sub": "ack", "kind": "notification_unknown", "tree": S.tree_to_json(t)}), 4 * n))
     call = E.by_name("CallProtocolEntity")
     strategies.append(("call", S.shape_strategy(call.shape).map(lambda t: {"sub": "ack", "kind": "call", "tree": S.tree_to_json(t)}), 4 * n))
     ping = S.N("iq", {"id": S.ID, "type": S.CONST("get"), "from": S.CONST(SERVER), "xmlns": S.CONST("urn:xmpp:ping")})
@@ -291,10 +297,11 @@ def plan(tier):
             strategies.append(("message_%s_%s" % (pk, "group" if group else "direct"),
                                S.shape_strategy(shape).map(lambda t: {"sub": "ack", "kind": "message_unpresentable", "tree": S.tree_to_json(t)}), n))
         attrs = dict(_msg_attrs(group), type=S.CONST("media"))
-        blob = S.Kind("PAYLOAD_location", st.just(payload("location", "")), is_bytes=True)
-        shape = S.N("message", attrs, children=[S.N("proto", {"mediatype": S.WORD("livelocation", "contact_array", "product", "poll")}, data=blob)])
-        strategies.append(("media_unknown_%s" % ("group" if group else "direct"),
-                           S.shape_strategy(shape).map(lambda t: {"sub": "ack", "kind": "media_unknown", "tree": S.tree_to_json(t)}), n))
+        for pk in ("location", "unknown_fields") + (("location+skdm", "unknown_fields+skdm") if group else ()):
+            blob = S.Kind("PAYLOAD_media_" + pk, S.TEXT.strategy.map(lambda s, _pk=pk: payload(_pk, s)), is_bytes=True)
+            shape = S.N("message", attrs, children=[S.N("proto", {"mediatype": S.WORD("livelocation", "contact_array", "product", "poll")}, data=blob)])
+            strategies.append(("media_unknown_%s_%s" % (pk, "group" if group else "direct"),
+                               S.shape_strategy(shape).map(lambda t: {"sub": "ack", "kind": "media_unknown", "tree": S.tree_to_json(t)}), n))
     bad = S.N("notification", {"id": S.ID, "from": S.JID, "type": S.CONST("picture"), "t": S.TS, "notify": S.OPT(S.TEXT)},
               children=[S.CH(S.N(S.WORD("request", "other")), 0, 1)])
     strategies.append(("picture_bad", S.shape_strategy(bad).map(lambda t: {"sub": "ack", "kind": "picture_bad", "tree": S.tree_to_json(t)}), n))
